@@ -19,7 +19,9 @@ import (
 // ---------------------------------------------------------------------------------------
 
 const c14Prog = `
-function deep(n, arr,   loc) {
+function deep(n, arr,   loc, k, cnt) {
+	cnt = 0; for (k in loc) cnt++
+	if (cnt) obs("stale-local", cnt)
 	loc[n] = n; arr["d" n] = n
 	if (n > 0) return deep(n - 1, arr) + 1
 	if (act == "failfn") fail("boom")
@@ -52,8 +54,9 @@ BEGIN {
 	if (act == "setmodes") { INPUTMODE = "csv"; OUTPUTMODE = "tsv"; FS = ":"; OFS = "-"; RS = ";"; ORS = "!"; SUBSEP = "|"; CONVFMT = "%.2g"; OFMT = "%.3g" }
 	if (act == "divbegin") x = 1 / zero
 	if (act == "exitbegin") exit 4
+	if (act == "srandonly") srand(5)
+	if (usegetline) { if ((getline line < "in1") > 0) obs("getline.in1", line) }
 	if (usefiles) {
-		if ((getline line < "in1") > 0) obs("getline.in1", line)
 		printf "%s", "w1" > "out1"
 		print "a" >> "out2"
 		print 1, 0.5
@@ -101,23 +104,24 @@ END {
 }
 `
 
-var c14Acts = []string{"", "", "", "setmodes", "divbegin", "exitbegin", "closecmd", "srand", "forin", "getlinebegin",
+var c14Acts = []string{"", "", "", "srandonly", "setmodes", "divbegin", "exitbegin", "closecmd", "srand", "forin", "getlinebegin",
 	"failfn", "divfn", "exitfn", "cancelfn", "nextfn", "exitrule", "divrule", "cancelrule", "failrule", "deeprule", "getlinerule", "matchrule", "divend", "exitend"}
 
 type c14Run struct {
-	Act       string `json:"act,omitempty"`
-	Probe     bool   `json:"probe,omitempty"`
-	ProbeVars bool   `json:"probevars,omitempty"`
-	Defaults  bool   `json:"defaults,omitempty"`
-	UseFiles  bool   `json:"usefiles,omitempty"`
-	UseStdin  bool   `json:"usestdin,omitempty"`
-	UseCmd    bool   `json:"usecmd,omitempty"`
-	UseRand   bool   `json:"userand,omitempty"`
-	UseMatch  bool   `json:"usematch,omitempty"`
-	UseDeep   bool   `json:"usedeep,omitempty"`
-	UseName   bool   `json:"usename,omitempty"`
-	UseRec    bool   `json:"userec,omitempty"`
-	Depth     int    `json:"depth,omitempty"`
+	Act        string `json:"act,omitempty"`
+	Probe      bool   `json:"probe,omitempty"`
+	ProbeVars  bool   `json:"probevars,omitempty"`
+	Defaults   bool   `json:"defaults,omitempty"`
+	UseFiles   bool   `json:"usefiles,omitempty"`
+	UseGetline bool   `json:"usegetline,omitempty"`
+	UseStdin   bool   `json:"usestdin,omitempty"`
+	UseCmd     bool   `json:"usecmd,omitempty"`
+	UseRand    bool   `json:"userand,omitempty"`
+	UseMatch   bool   `json:"usematch,omitempty"`
+	UseDeep    bool   `json:"usedeep,omitempty"`
+	UseName    bool   `json:"usename,omitempty"`
+	UseRec     bool   `json:"userec,omitempty"`
+	Depth      int    `json:"depth,omitempty"`
 
 	Stdin  core.Bytes    `json:"stdin,omitempty"`
 	StdinD core.Delivery `json:"stdin_delivery"`
@@ -149,6 +153,8 @@ type c14Run struct {
 }
 
 type c14Scn struct {
+	// SameSink: the reused Interpreter writes to the very same writer object in every run
+	SameSink  bool     `json:"same_sink,omitempty"`
 	ResetVars bool     `json:"reset_vars"`
 	ResetRand bool     `json:"reset_rand"`
 	Runs      []c14Run `json:"runs"`
@@ -206,7 +212,7 @@ func b2s(b bool) string {
 }
 
 // c14Exec performs one run on the given interpreter in a fresh simulated world.
-func c14Exec(it *interp.Interpreter, run *c14Run, log *core.Log) *c14Result {
+func c14Exec(it *interp.Interpreter, run *c14Run, log *core.Log, shared *core.SimSink) *c14Result {
 	res := &c14Result{Fired: map[string]int{}}
 	st := &c14State{}
 	c14cur = st
@@ -220,8 +226,14 @@ func c14Exec(it *interp.Interpreter, run *c14Run, log *core.Log) *c14Result {
 	_ = fs.Put("csv1", []byte("a,b\n1,2\n3,4\n"))
 	_ = fs.Put("out2", []byte("old\n"))
 	stdout := core.NewSimSink("stdout", log)
+	base := 0
+	if shared != nil {
+		stdout = shared
+		base = len(stdout.Bytes())
+		stdout.FailAt = -1
+	}
 	if run.OutFail {
-		stdout.FailAt = run.OutFailAt
+		stdout.FailAt = base + run.OutFailAt
 	}
 	stderr := core.NewSimSink("stderr", nil)
 	stats := &core.ReaderStats{}
@@ -275,7 +287,7 @@ func c14Exec(it *interp.Interpreter, run *c14Run, log *core.Log) *c14Result {
 	}
 	cfg.Vars = []string{
 		"act", run.Act, "probe", b2s(run.Probe), "probevars", b2s(run.ProbeVars), "defaults", b2s(run.Defaults),
-		"usefiles", b2s(run.UseFiles), "usestdin", b2s(run.UseStdin), "usecmd", b2s(run.UseCmd), "userand", b2s(run.UseRand),
+		"usefiles", b2s(run.UseFiles), "usegetline", b2s(run.UseGetline), "usestdin", b2s(run.UseStdin), "usecmd", b2s(run.UseCmd), "userand", b2s(run.UseRand),
 		"usematch", b2s(run.UseMatch), "usedeep", b2s(run.UseDeep), "usename", b2s(run.UseName), "userec", b2s(run.UseRec),
 		"depth", fmt.Sprint(run.Depth), "zero", "0", "dyn", "b+", "target", "abbcb",
 		"cmdin", "ci;emit:from-child\n;exit:0", "cmdout", "co;save:" + fs.Path("cmdsaved") + ";exit:3",
@@ -313,7 +325,7 @@ func c14Exec(it *interp.Interpreter, run *c14Run, log *core.Log) *c14Result {
 	})
 	res.Status, res.Err, res.Panic = r.Status, r.errString(), r.Panic
 	res.Obs = st.obs
-	res.Stdout = stdout.String()
+	res.Stdout = stdout.String()[base:]
 	res.Stderr = stderr.String()
 	// the scratch path appears in child command lines echoed in error messages: normalise
 	res.Stderr = strings.ReplaceAll(res.Stderr, fs.Dir, "<fs>")
@@ -378,6 +390,7 @@ func c14GenRun(r *core.Rand, resetVars, resetRand bool, children bool) c14Run {
 	run.Defaults = !resetVars
 	run.ProbeVars = resetVars && r.Chance(3, 4)
 	run.UseFiles = r.Chance(1, 2)
+	run.UseGetline = r.Chance(1, 3)
 	run.UseStdin = r.Chance(1, 6)
 	run.UseCmd = children && r.Chance(1, 3)
 	run.UseRand = resetRand && r.Chance(1, 2)
@@ -470,6 +483,7 @@ func (c14Engine) Gen(r *core.Rand, tier string, i int) any {
 	sc := &c14Scn{}
 	sc.ResetVars = r.Chance(1, 2)
 	sc.ResetRand = sc.ResetVars || r.Chance(1, 3)
+	sc.SameSink = r.Chance(1, 3)
 	children := r.Chance(1, 12)
 	n := r.Range(2, 5)
 	if r.Chance(1, 10) {
@@ -521,6 +535,10 @@ func (c14Engine) Run(scAny any, keep bool) core.Outcome {
 		core.Fatal("C14: New: %v", err)
 	}
 	fired := map[string]int{}
+	var shared *core.SimSink
+	if sc.SameSink {
+		shared = core.NewSimSink("stdout", log)
+	}
 	for i := range sc.Runs {
 		run := &sc.Runs[i]
 		if i > 0 {
@@ -531,9 +549,9 @@ func (c14Engine) Run(scAny any, keep bool) core.Outcome {
 				reused.ResetRand()
 			}
 		}
-		a := c14Exec(reused, run, log)
+		a := c14Exec(reused, run, log, shared)
 		fresh, _ := interp.New(prog)
-		b := c14Exec(fresh, run, nil)
+		b := c14Exec(fresh, run, nil, nil)
 		for k, v := range a.Fired {
 			fired[k] += v
 		}
@@ -610,7 +628,7 @@ func (c14Engine) Shrink(scAny any) []any {
 			on  bool
 			off func(r *c14Run)
 		}{
-			{run.UseFiles, func(r *c14Run) { r.UseFiles = false }}, {run.UseStdin, func(r *c14Run) { r.UseStdin = false }},
+			{run.UseFiles, func(r *c14Run) { r.UseFiles = false }}, {run.UseGetline, func(r *c14Run) { r.UseGetline = false }}, {run.UseStdin, func(r *c14Run) { r.UseStdin = false }},
 			{run.UseCmd, func(r *c14Run) { r.UseCmd = false }}, {run.UseRand, func(r *c14Run) { r.UseRand = false }},
 			{run.UseMatch, func(r *c14Run) { r.UseMatch = false }}, {run.UseDeep, func(r *c14Run) { r.UseDeep = false }},
 			{run.UseName, func(r *c14Run) { r.UseName = false }}, {run.UseRec, func(r *c14Run) { r.UseRec = false }},
@@ -642,6 +660,11 @@ func (c14Engine) Shrink(scAny any) []any {
 			mod(func(r *c14Run) { r.CancelStep = run.CancelStep / 2 })
 			mod(func(r *c14Run) { r.CancelStep = run.CancelStep - 1 })
 		}
+	}
+	if sc.SameSink {
+		c := clone()
+		c.SameSink = false
+		out = append(out, c)
 	}
 	if sc.ResetRand && !sc.ResetVars {
 		c := clone()
